@@ -156,7 +156,7 @@ add("C05", "exploration", [
     {"name": "c05-placement", "bin": "c05", "pkg": ZZ + "c05", "run": "^TestVerifC05Placement$",
      "shards": {"quick": 9, "thorough": 12}, "checks": {"quick": 30, "thorough": 1500},
      "timeout": {"quick": 900, "thorough": 3300}},
-    {"name": "c05-exhaustive", "bin": "c05", "pkg": ZZ + "c05", "run": "^TestVerifC05(Exhaustive|SharedViews)$",
+    {"name": "c05-exhaustive", "bin": "c05", "pkg": ZZ + "c05", "run": "^TestVerifC05(Exhaustive|SharedViews|SharedResult)$",
      "shards": {"quick": 4, "thorough": 16}, "timeout": {"quick": 900, "thorough": 3300}},
 ])
 
